@@ -109,3 +109,7 @@ pub use crate::{
 // Build time diagnostics for validation
 #[cfg(curve25519_dalek_diagnostics = "build")]
 mod diagnostics;
+
+// Verification hooks: only with `--cfg curve25519_dalek_verif`, never in a normal build
+#[cfg(curve25519_dalek_verif)]
+pub mod verif_hooks;
